@@ -611,7 +611,7 @@ def replay(wit):
 
 LEVEL = 'exploration'
 TECHNIQUE = 'runtime oracle (reference DFS on the live object graph) + offline trace checker over hooked visited-set events (stack discipline, fresh set, no residue) + re-print comparison'
-LEVEL_TEXT = ('All rooted multigraphs up to 3 nodes / 3 ordered edges (thorough 4/4, sampled 1:5 at 4 nodes) over three container kinds and random graphs up to 12 nodes with shared acyclic parts are printed; '
+LEVEL_TEXT = ('All rooted multigraphs up to 3 nodes / 3 ordered edges (thorough 4/4, sampled 1:5 at 4 nodes) over three container kinds, random graphs up to 12 nodes with shared acyclic parts, and graphs through fourteen other node kinds (stdlib containers, user types registered by class / by predicate / by name of their base class, dataclasses, a node whose printer fails; references optionally wrapped in comments) are printed; '
               'the recursion markers must be exactly the back-edges of a reference DFS, and every visited-set operation of the real context is logged and checked offline.')
 LEVEL_NOTE = 'Termination is restated as an event budget per call; exact text oracle for list/dict/tuple graphs (+ set/frozenset/atoms as acyclic sharers), marker-sequence oracle for cycles through twelve other container kinds (OrderedDict, defaultdict, deque, ChainMap, SimpleNamespace, exceptions, namedtuples, subclasses, user types registered by class / by predicate, dataclasses); aborted-print probe for residue.'
 ANCHORS = ['prettyprinter.PrettyContext.start_visit', 'prettyprinter.PrettyContext.end_visit', 'prettyprinter.PrettyContext.is_visited', 'prettyprinter._pretty_recursion', 'prettyprinter._run_pretty']
